@@ -141,6 +141,18 @@ pub fn ratio(margin: U, pnl: i128, f: i128, n: U, d: U) -> Option<i128> {
     smul_div(e, ui(d)?, ui(n)?)
 }
 
+/// The liquidation ratio extended to a position worth nothing at the price in question (notional 0): the quotient is
+/// not defined there, its sign is - positive equity is above any maintenance ratio, negative equity below any; zero
+/// equity counts as ratio 0. (`LARGE` stands for "beyond every ratio".)
+pub const LARGE: i128 = i128::MAX / 4;
+pub fn ratio_ext(margin: U, pnl: i128, f: i128, n: U, d: U) -> Option<i128> {
+    if n != 0 {
+        return ratio(margin, pnl, f, n, d);
+    }
+    let e = ui(margin)?.checked_add(pnl)?.checked_sub(f)?;
+    Some(if e > 0 { LARGE } else if e < 0 { -LARGE } else { 0 })
+}
+
 pub fn fee(n: U, ratio: U, d: U) -> Option<U> {
     if n == 0 {
         return Some(0);
